@@ -35,6 +35,9 @@ pub enum Mal {
     PageMissing { field: u8 },
     /// a first-page parameter given twice
     PageDup { field: u8 },
+    /// a body that is well-formed for the *other* typed-body content type, labelled as such: form-encoded
+    /// to the endpoint declaring JSON (true) or JSON to the endpoint declaring form encoding (false)
+    CrossEncoded { to_json_endpoint: bool },
 }
 
 #[derive(Clone, Debug, Serialize, Deserialize)]
@@ -188,6 +191,7 @@ fn mal_strategy() -> impl Strategy<Value = Mal> {
         2 => (0u8..10, any::<u16>(), garbage()).prop_map(|(field, bad, garbage)| Mal::PageVal { field, bad, garbage }),
         1 => (0u8..9).prop_map(|field| Mal::PageMissing { field }),
         1 => (0u8..13).prop_map(|field| Mal::PageDup { field }),
+        2 => any::<bool>().prop_map(|to_json_endpoint| Mal::CrossEncoded { to_json_endpoint }),
     ]
 }
 
@@ -470,6 +474,31 @@ pub fn render_bad(c: &BadCase) -> Option<BadWire> {
             class = "page-duplicate".into();
             desc = format!("first-page parameter {} given twice", f);
         }
+        Mal::CrossEncoded { to_json_endpoint } => {
+            let fs = &c.form;
+            if *to_json_endpoint {
+                let mut pairs = vec![
+                    ("a".to_string(), fs.a.clone()),
+                    ("b".to_string(), fs.b.to_string()),
+                    ("c".to_string(), fs.c.to_string()),
+                    ("e".to_string(), COLORS[fs.e as usize % 3].1.to_string()),
+                    ("big".to_string(), fs.big.to_string()),
+                ];
+                if let Some(o) = &fs.o {
+                    pairs.push(("o".into(), o.clone()));
+                }
+                body_override = Some(simple_pairs(&pairs).into_bytes());
+                ct = Some(b"application/x-www-form-urlencoded".to_vec());
+                op = "ve_flatjson";
+                desc = "a well-formed form-encoded body, labelled application/x-www-form-urlencoded, sent to an endpoint that declares application/json".into();
+            } else {
+                body_override = Some(json!({"a": fs.a, "b": fs.b, "c": fs.c, "e": COLORS[fs.e as usize % 3].1, "big": fs.big, "o": fs.o}).to_string().into_bytes());
+                ct = Some(b"application/json".to_vec());
+                op = "ve_form_json";
+                desc = "a well-formed JSON body, labelled application/json, sent to an endpoint that declares application/x-www-form-urlencoded".into();
+            }
+            class = format!("cross-encoded:{}", if *to_json_endpoint { "form-to-json-endpoint" } else { "json-to-form-endpoint" });
+        }
         Mal::FormField { .. } | Mal::FormMissing { .. } | Mal::FormDup { .. } => {
             let fs = &c.form;
             let mut pairs = vec![
@@ -533,6 +562,8 @@ pub fn render_bad(c: &BadCase) -> Option<BadWire> {
             format!("/e/all/{}?{}", path_segs.join("/"), simple_pairs(&qpairs)),
             Some(body_override.unwrap_or_else(|| join_json(&jfields).into_bytes())),
         ),
+        "ve_flatjson" => ("POST", format!("/e/flatjson?tag={}", tag), Some(body_override.clone().unwrap_or_default())),
+        "ve_form_json" => ("POST", format!("/e/form?tag={}", tag), Some(body_override.clone().unwrap_or_default())),
         "ve_form" => ("POST", format!("/e/form?tag={}", tag), Some(body_override.unwrap_or_else(|| {
             let fs = &c.form;
             let mut pairs = vec![
@@ -552,7 +583,7 @@ pub fn render_bad(c: &BadCase) -> Option<BadWire> {
     let mut out = Vec::new();
     out.extend_from_slice(format!("{} {} HTTP/1.1\r\nhost: verif\r\nx-verif-tag: {}\r\n", method, target, tag).as_bytes());
     if let (Some(ct), Some(_)) = (&ct, &body) {
-        if op == "ve_form" && !matches!(c.mal, Mal::ContentType { .. }) {
+        if op == "ve_form" && !matches!(c.mal, Mal::ContentType { .. } | Mal::CrossEncoded { .. }) {
             out.extend_from_slice(b"content-type: application/x-www-form-urlencoded\r\n");
         } else {
             out.extend_from_slice(b"content-type: ");
@@ -571,6 +602,7 @@ pub fn render_bad(c: &BadCase) -> Option<BadWire> {
     } else {
         out.extend_from_slice(b"\r\n");
     }
+    let op = if op == "ve_form_json" { "ve_form" } else { op };
     Some(BadWire { bytes: out, op, class, desc })
 }
 
@@ -590,6 +622,7 @@ fn render_good(c: &BadCase, op: &str) -> Wire {
         "ve_path" => EchoReq::Path(c.path.clone()),
         "ve_query" => EchoReq::Query(c.query.clone()),
         "ve_page" => EchoReq::Page(c.query.clone(), None),
+        "ve_flatjson" => EchoReq::FlatJson(c.form.clone(), fr),
         "ve_cwild" | "ve_uwild" => match &c.mal {
             Mal::WildElem { uuid: true, good, .. } => EchoReq::UuidWild(good.iter().map(|g| wild_uuid(*g)).collect()),
             Mal::WildElem { good, .. } => EchoReq::ColorWild(good.iter().map(|g| (*g % 3) as u8).collect()),
@@ -677,7 +710,7 @@ fn check_bad(live: &LiveEcho, rt: &tokio::runtime::Runtime, c: &BadCase, st: &mu
 }
 
 pub fn run(ctx: &mut Ctx) {
-    ctx.rule = "a valid request from C09's generator (confirmed accepted first) with exactly one constructed malformation: ill-typed/out-of-range/unknown-variant token in each path, query, first-page (pagination scan) parameter, JSON and form position, or as one component (any position) of a wildcard remainder typed as enum values or UUIDs; missing required field; duplicated field; 17 kinds of malformed JSON incl. truncation at every offset, trailing data and concatenated values; wrong or undecodable content type. Oracle: a response arrives, 4xx, framework error body with matching request id, per-operation handler-entry counter unchanged, follow-up requests succeed. non-trivial = every executed case (all are invalid by construction); distinct by (operation, class, request bytes)".into();
+    ctx.rule = "a valid request from C09's generator (confirmed accepted first) with exactly one constructed malformation: ill-typed/out-of-range/unknown-variant token in each path, query, first-page (pagination scan) parameter, JSON and form position, or as one component (any position) of a wildcard remainder typed as enum values or UUIDs; missing required field; duplicated field; 17 kinds of malformed JSON incl. truncation at every offset, trailing data and concatenated values; wrong or undecodable content type; a body well-formed for the other typed-body encoding and labelled as such (form-encoded to a JSON endpoint, JSON to a form endpoint). Oracle: a response arrives, 4xx, framework error body with matching request id, per-operation handler-entry counter unchanged, follow-up requests succeed. non-trivial = every executed case (all are invalid by construction); distinct by (operation, class, request bytes)".into();
     ctx.assume("float overflow (1e400) is not generated; content types with parameters are valid and belong to C09; a leading '+' on integers and other spellings the Rust parsers accept are not in the malformation table");
     ctx.max_shrink_iters = 600;
     let srt = tokio::runtime::Builder::new_multi_thread().worker_threads(2).enable_all().build().unwrap();
@@ -685,7 +718,7 @@ pub fn run(ctx: &mut Ctx) {
     let live = start_echo(&srt, 1 << 20, dropshot::HandlerTaskMode::Detached);
     let n = ctx.tier.pick(9000, 250000);
     ctx.phase("malformations", n, bad_case_strategy(), |c, st| check_bad(&live, &rt, c, st));
-    for k in ["path", "query-value", "query-missing", "query-duplicate", "json-value", "json-missing", "json-duplicate", "json-syntax", "content-type", "form-value", "form-missing", "form-duplicate", "wildcard-element", "page-value", "page-missing", "page-duplicate"] {
+    for k in ["path", "query-value", "query-missing", "query-duplicate", "json-value", "json-missing", "json-duplicate", "json-syntax", "content-type", "form-value", "form-missing", "form-duplicate", "wildcard-element", "page-value", "page-missing", "page-duplicate", "cross-encoded"] {
         ctx.require_frac("malformations", &format!("class:{}", k), "class:path", 0.05);
     }
     let _ = srt.block_on(live.server.close());
